@@ -123,6 +123,8 @@ def explore_cfg(args):
     t = explore.explore(ad, max_depth=depth, max_nodes=c.get("maxnodes", 120000), audit_rng=random.Random(seed_))
     r, pf, dr = conform.walk_tree("Trace_Coordination", t, constants(c), "coord")
     fails = conform.fails_from(pf, t, sig, {"cfg": c})
+    if t["audit_fail"]:
+        fails += conform.audit_followup(ad, t, "Trace_Coordination", constants(c), sig, {"cfg": c})
     dls = sum(1 for e in t["edges"] if e["obs"]["dl"])
     sample = next(({"cfg": {k: c[k] for k in ("ops", "res", "preempt", "high", "strategy")}, "path": [[a["op"], a["o"], a["r"]] for a in t["paths"][e["id"]]],
                     "obs": e["obs"]} for e in t["edges"] if e["act"]["op"] == "watchdog" and e["obs"]["victim"] != NOONE), None)
